@@ -44,6 +44,7 @@ const (
 )
 
 type lsSim struct {
+	rt   *rapid.T
 	c    vs.Chooser
 	tr   *vs.Trace
 	side connSide
@@ -205,7 +206,8 @@ func (s *lsSim) discardKeys(space numberSpace) {
 func (s *lsSim) sendPacket(space numberSpace, size int, ackEliciting, inFlight bool) {
 	num := s.ls.nextNumber(space)
 	if int(num) != len(s.pk[space]) {
-		s.fail(vs.Violf("C26", "packet_number", "next_number_mismatch", "nextNumber(%v)=%d after %d numbers were used", space, num, len(s.pk[space])))
+		// the harness indexes packets by number; it cannot go on (not a C26 matter)
+		vs.Harnessf(s.rt, "nextNumber(%v)=%d after %d numbers were used", space, num, len(s.pk[space]))
 		return
 	}
 	p := &lsPkt{space: space, num: num, size: size, inFlight: inFlight, ackEliciting: ackEliciting, sentAt: s.now}
@@ -664,7 +666,7 @@ func c26Run(rt *rapid.T) {
 	qpProbes("acked", "lost", "spurious_loss", "discard_keys_with_outstanding", "retry_with_outstanding", "pto_expired",
 		"cwnd_at_minimum", "cc_limited", "amplification_blocked", "skipped_number", "ack_refused", "arbitrary_ack",
 		"ack_with_gaps", "ack_ranges_pruned", "inflight_not_ackeliciting", "advance_to_timer", "drained", "recovery_entered", "paced")
-	s := &lsSim{c: c, tr: tr}
+	s := &lsSim{rt: rt, c: c, tr: tr}
 	s.side = vs.Pick(c, clientSide, serverSide)
 	s.mds = vs.Pick(c, 1200, 1200, 1252, 1472, 4096)
 	s.t0 = time.Date(2001, 2, 3, 4, 5, 6, 0, time.UTC)
